@@ -31,6 +31,7 @@ struct Gen {
     unsigned data_len(const GSlot &s, unsigned maxlen) {
         unsigned bs = kind_bs(s.kind), b = batch_of(s);
         unsigned n;
+        if (maxlen >= 300 && r.chance(1, 150)) return 1500 + r.below(9500);      // rarely a long single call (loop counters, many batches in one call)
         switch (r.below(14)) {
         case 0: n = 0; break;
         case 1: n = 1; break;
@@ -121,6 +122,7 @@ struct Gen {
     }
     void par(int s, unsigned nblocks, bool dec) {
         int k = g[s].kind; unsigned bs = kind_bs(k);
+        if (r.chance(1, 150)) nblocks = 100 + r.below(k == P128 ? 560 : 1200);   // rarely a long request
         Op &o = emit(dec && k != PM ? OP_PDEC : OP_PENC, s); o.size = nblocks * bs; o.a = r.bytes(o.size); if (k == PM) o.b = r.bytes(o.size);
         if (r.chance(1, 3)) o.flags |= F_INPLACE;
     }
